@@ -36,7 +36,7 @@ import (
 )
 
 type config struct {
-	Mode   string `json:"mode"`   // trigger | tryfuse | getconn
+	Mode   string `json:"mode"`   // trigger | tryfuse | getconn | group2
 	W      int64  `json:"w"`      // window seconds
 	M      int64  `json:"m"`      // minimum error count
 	Start  int64  `json:"start"`  // clock value before the first delta
@@ -47,6 +47,7 @@ type config struct {
 type event struct {
 	D int64  `json:"d"`
 	K string `json:"k"`
+	R int    `json:"r,omitempty"` // mode group2: the replica (0 or 1) the error is reported for
 }
 
 type kase struct {
@@ -104,6 +105,21 @@ func deltas(w int64) []int64 {
 
 func events(c config) []event {
 	var es []event
+	if c.Mode == "group2" {
+		seen := map[int64]bool{}
+		for _, d := range []int64{0, 1, c.W - 1, c.W, c.W + 1} {
+			if d < 0 || seen[d] {
+				continue
+			}
+			seen[d] = true
+			for rep := 0; rep < 2; rep++ {
+				for _, k := range []string{"conn", "sql"} {
+					es = append(es, event{D: d, K: k, R: rep})
+				}
+			}
+		}
+		return es
+	}
 	for _, d := range deltas(c.W) {
 		if c.Mode == "trigger" {
 			es = append(es, event{D: d, K: "conn"})
@@ -131,6 +147,9 @@ type outcome struct {
 
 // run replays a history on fresh objects and checks the oracle after every step.
 func run(c config, hist []event) outcome {
+	if c.Mode == "group2" {
+		return run2(c, hist)
+	}
 	var (
 		sw    *backend.SlidingWindow
 		slice *backend.Slice
@@ -296,6 +315,96 @@ func stateKey(c config, now int64, sw *backend.SlidingWindow, ref []int64) strin
 	return sb.String()
 }
 
+// run2 — mode group2: TWO replicas in one slave group, their fuse/recovery strategies
+// installed by the real Slice.InitFuseRecoveryPolicy -> DBInfo.InitFuseRecoveryPolicy (what
+// parseSlices calls), connection errors reported through the real Slice.TryFuse for either
+// replica. The oracle is per replica: the replica the error is reported for goes down iff ITS
+// OWN recorded connection errors in (now-W, now] reach M; the other replica keeps its status.
+func run2(c config, hist []event) outcome {
+	clockMu.Lock()
+	defer clockMu.Unlock()
+	vclock.Enable(time.Unix(c.Start, 0))
+	defer vclock.Disable()
+	dbi := &backend.DBInfo{}
+	for i := 0; i < 2; i++ {
+		p := fakepool.New(fmt.Sprintf("127.0.0.1:33%02d", 7+i), "dc")
+		dbi.Nodes = append(dbi.Nodes, &backend.NodeInfo{Address: p.AddrS, Datacenter: "dc", Weight: 1, ConnPool: p, Status: backend.StatusUp})
+	}
+	if err := dbi.InitBalancers("dc"); err != nil {
+		ev.Fatalf("InitBalancers: %v", err)
+	}
+	slice := &backend.Slice{Namespace: "ns", ProxyDatacenter: "dc", FuseEnabled: "on", FuseWindowSize: c.W, FuseMinErrorCount: c.M, Slave: dbi}
+	if c.Policy == "hard" {
+		slice.FuseCooldownPeriod = 5
+	}
+	if err := slice.InitFuseRecoveryPolicy(dbi); err != nil {
+		ev.Fatalf("InitFuseRecoveryPolicy: %v", err)
+	}
+	var refs [2][]int64
+	now := c.Start
+	var out outcome
+	for i, e := range hist {
+		now += e.D
+		vclock.Set(time.Unix(now, 0))
+		slice.TryFuse(dbi.Nodes[e.R], errOf(e.K))
+		recorded := counts(e.K)
+		if recorded {
+			refs[e.R] = append(refs[e.R], now)
+		}
+		inWin := 0
+		for _, t := range refs[e.R] {
+			if t > now-c.W && t <= now {
+				inWin++
+			}
+		}
+		for rep := 0; rep < 2; rep++ {
+			got := dbi.Nodes[rep].IsStatusDown()
+			want := rep == e.R && recorded && int64(inWin) >= c.M
+			if got != want {
+				kind := "fired_below_threshold"
+				switch {
+				case rep != e.R:
+					kind = "other_replica_marked_down"
+				case want:
+					kind = "not_fired_at_threshold"
+				case !recorded:
+					kind = "non_connection_error_counted"
+				}
+				out.res = xstate.Result{
+					Violation: fmt.Sprintf("step %d (t=%d, kind=%s on replica %d): replica %d down=%v; replica %d has %d own recorded connection errors in (t-%d, t], threshold %d", i, now, e.K, e.R, rep, got, e.R, inWin, c.W, c.M),
+					Features:  map[string]string{"mode": c.Mode, "kind": kind, "errkind": e.K, "policy": c.Policy, "enabled": "true"},
+				}
+				return out
+			}
+			if got {
+				dbi.Nodes[rep].SetStatusUp() // what a successful recovery does
+			}
+		}
+		if i == len(hist)-1 {
+			fired := recorded && int64(inWin) >= c.M
+			out.fired = fired
+			out.inWindow = inWin
+			out.expired = inWin < len(refs[e.R])
+			other := 0
+			for _, t := range refs[1-e.R] {
+				if t > now-c.W && t <= now {
+					other++
+				}
+			}
+			out.res.Outcome = fmt.Sprintf("fired=%v inwin=%d other=%d", fired, inWin, other)
+			// non-trivial for this mode: both replicas hold errors in the window at once
+			out.expired = inWin >= 1 && other >= 1
+		}
+	}
+	var keys []string
+	for rep := 0; rep < 2; rep++ {
+		sw, _ := dbi.Nodes[rep].FuseStrategy.(*backend.SlidingWindow)
+		keys = append(keys, stateKey(c, now, sw, refs[rep]))
+	}
+	out.res.Key = strings.Join(keys, " || ")
+	return out
+}
+
 func runCase(r *ev.Run, k kase) {
 	o := run(k.Cfg, k.Hist)
 	if o.res.Violation != "" {
@@ -346,6 +455,15 @@ func configs(r *ev.Run) []config {
 		}
 		cs = append(cs, config{Mode: mode, W: 2, M: 1, Start: 1000000000, Policy: "off"})
 	}
+	// two replicas in one group, strategies from the real InitFuseRecoveryPolicy
+	max2 := int64(r.Pick(3, 4))
+	for _, pol := range []string{"hard", "gradual"} {
+		for w := int64(1); w <= max2; w++ {
+			for m := int64(1); m <= max2; m++ {
+				cs = append(cs, config{Mode: "group2", W: w, M: m, Start: 1000000000, Policy: pol})
+			}
+		}
+	}
 	return cs
 }
 
@@ -371,6 +489,9 @@ func main() {
 		depth := depthDirect
 		if c.Mode != "trigger" {
 			depth = depthSlice
+		}
+		if c.Mode == "group2" {
+			depth = r.Pick(4, 5)
 		}
 		es := events(c)
 		spec := xstate.Spec[event]{
@@ -461,8 +582,8 @@ func main() {
 	r.Set("max_depth", maxDepth)
 	r.Set("configs", len(cs))
 	r.Set("per_mode", perMode)
-	r.Set("bounds", fmt.Sprintf("W,M in 1..%d (direct) / 1..%d (through Slice) plus disabled (W or M <= 0, strategies not installed); start clock in {0, W-1, 1e9}; time deltas {0,1,2,W-1,W,W+1,3W}; depth %d (SlidingWindow.Trigger direct) / %d (Slice.TryFuse, Slice.GetSlaveConn, 7 error kinds per step, plus in tryfuse mode a connection error that hits the replica while a health check has it down); policies hard, gradual",
-		r.Pick(6, 8), r.Pick(4, 6), depthDirect, depthSlice))
+	r.Set("bounds", fmt.Sprintf("W,M in 1..%d (direct) / 1..%d (through Slice) plus disabled (W or M <= 0, strategies not installed); start clock in {0, W-1, 1e9}; time deltas {0,1,2,W-1,W,W+1,3W}; depth %d (SlidingWindow.Trigger direct) / %d (Slice.TryFuse, Slice.GetSlaveConn, 7 error kinds per step, plus in tryfuse mode a connection error that hits the replica while a health check has it down); policies hard, gradual; mode group2 (two replicas of one group, strategies from the real InitFuseRecoveryPolicy, errors on either replica through TryFuse): W,M in 1..%d, deltas {0,1,W-1,W,W+1}, kinds {conn, sql}, depth %d",
+		r.Pick(6, 8), r.Pick(4, 6), depthDirect, depthSlice, r.Pick(3, 4), r.Pick(4, 5)))
 	r.Set("explanation", "states = distinct canonical (window private state, clock mod W, live reference timestamps) per configuration, summed; transitions = histories replayed on fresh real objects (every one executes the real Trigger/TryFuse/GetSlaveConn and is compared with the reference count after every step); distinct_nontrivial = distinct states reached in which an earlier recorded error had already expired while the window still held errors (bucket expiry / reuse really exercised); distinct_outcomes = distinct (mode, fired, errors in window) observations")
 	r.Assume("Slice.TryFuse reads the clock through vclock (time.Now rewritten in backend/slice.go, node_fuse.go, node.go); SlidingWindow.Trigger receives the timestamp as an argument and is not rewritten")
 	r.Assume("timestamps are non-decreasing non-negative unix seconds (the property's quantifier); 'connection error' = a mysql.ConnTypeError value as produced by DirectConnection.connect and util.ResourcePool (pool time-out included)")
